@@ -35,6 +35,14 @@ def partitions_within(family: set[frozenset], universe: frozenset) -> list[list[
     return out
 
 
+def closure(part: list[frozenset]) -> set[frozenset]:
+    out = set()
+    for r in range(1, len(part) + 1):
+        for combo in itertools.combinations(part, r):
+            out.add(frozenset().union(*combo))
+    return out
+
+
 def union_of(es: frozenset, cover: list[frozenset]) -> bool:
     acc: frozenset = frozenset()
     for c in cover:
@@ -43,13 +51,39 @@ def union_of(es: frozenset, cover: list[frozenset]) -> bool:
     return acc == es
 
 
-def judge_cover(fam: set[frozenset], universe: frozenset) -> Optional[str]:
-    got = get_weighted_cover({frozenset(s) for s in fam}, frozenset(universe))
+class OSet:
+    """a set with a chosen iteration order (what a different hash seed gives the real set)"""
+
+    def __init__(self, items: list[frozenset]):
+        self.items = list(items)
+
+    def __contains__(self, x: Any) -> bool:
+        return any(x == y for y in self.items)
+
+    def remove(self, x: Any) -> None:
+        self.items = [y for y in self.items if y != x]
+
+    def __iter__(self) -> Any:
+        return iter(list(self.items))
+
+    def __len__(self) -> int:
+        return len(self.items)
+
+
+def orders_of(fam: set[frozenset]) -> list[list[frozenset]]:
+    base = sorted(fam, key=lambda s: (len(s), sorted(s)))
+    return [base, base[::-1], base[1:] + base[:1], base[2:] + base[:2]]
+
+
+def judge_one(got: Any, fam: set[frozenset], universe: frozenset) -> Optional[str]:
     work = {s for s in fam if s != universe}
     valid = [p for p in partitions_within(work, universe) if all(union_of(es, p) for es in work)]
     if got is None:
-        if valid and work:
-            return f"no cover returned although {valid[0]} partitions {sorted(universe)} and explains every observed set"
+        # completeness is demanded only where the property demands exactness: the family is exactly the outcome family of
+        # an OR over AND-groups / plain events (all non-empty unions of the blocks of a partition with >= 2 blocks)
+        for part in valid:
+            if len(part) >= 2 and closure(part) == set(fam) | {universe}:
+                return f"no cover returned although the observed sets are exactly the outcomes of OR over {sorted(map(sorted, part))}"
         return None
     g = list(got)
     if any(c not in work for c in g):
@@ -58,6 +92,30 @@ def judge_cover(fam: set[frozenset], universe: frozenset) -> Optional[str]:
         return f"cover {g} is not a partition of {sorted(universe)}"
     if not all(union_of(es, g) for es in work):
         return f"cover {g} does not explain every observed set of {sorted(map(sorted, work))}"
+    return None
+
+
+def judge_cover(fam: set[frozenset], universe: frozenset) -> Optional[str]:
+    """C06: sound (and complete in the exactness class) for the real set and for every presented iteration order"""
+    msg = judge_one(get_weighted_cover({frozenset(s) for s in fam}, frozenset(universe)), fam, universe)
+    if msg:
+        return msg
+    for order in orders_of(fam):
+        alt = get_weighted_cover(OSet([frozenset(s) for s in order]), frozenset(universe))  # type: ignore[arg-type]
+        msg = judge_one(alt, fam, universe)
+        if msg:
+            return msg + f" [iteration order {[sorted(s) for s in order]}]"
+    return None
+
+
+def judge_order(fam: set[frozenset], universe: frozenset) -> Optional[str]:
+    """C03 (hash-seed dimension of this kernel): the answer does not depend on the iteration order of the observed sets"""
+    got = get_weighted_cover({frozenset(s) for s in fam}, frozenset(universe))
+    for order in orders_of(fam):
+        alt = get_weighted_cover(OSet([frozenset(s) for s in order]), frozenset(universe))  # type: ignore[arg-type]
+        if (alt is None) != (got is None) or (alt is not None and {frozenset(x) for x in alt} != {frozenset(x) for x in got}):
+            return (f"cover depends on the iteration order of the observed sets: {got} vs {alt} "
+                    f"(family {sorted(map(sorted, fam))}, order {[sorted(s) for s in order]})")
     return None
 
 
@@ -146,6 +204,8 @@ def check(b0: int, b1: int, b2: int, b3: int, b4: int, b5: int, b6: int, b7: int
     if CFG.get("kind") == "gates":
         return judge_gates(fam, k, bool(CFG.get("extra"))) is None
     universe = frozenset(U[:k]) if not CFG.get("sub") else frozenset().union(*fam)
+    if CFG.get("kind") == "order":
+        return judge_order(fam, universe) is None
     return judge_cover(fam, universe) is None
 
 
@@ -165,6 +225,8 @@ def replay(args: list[Any], c: dict[str, Any]) -> dict[str, Any]:
     fam = family([int(a) for a in args], k)
     if c.get("kind") == "gates":
         msg = judge_gates(fam, k, bool(c.get("extra")))
+    elif c.get("kind") == "order":
+        msg = judge_order(fam, frozenset(U[:k]) if not c.get("sub") else frozenset().union(*fam))
     else:
         msg = judge_cover(fam, frozenset(U[:k]) if not c.get("sub") else frozenset().union(*fam))
     return {"violates": msg is not None, "sig": c.get("kind", "cover"), "what": msg or "kernel result is sound and complete"}
